@@ -113,14 +113,9 @@ impl Run {
         }
         // queued at worker i: dispatched to the current generation of i and not yet called
         let mut chan = vec![vec![]; w];
-        let mut dropped_queued: Vec<usize> = vec![];
-        for (cid, wi) in s.dispatched.iter() {
-            if !called.contains(cid) {
-                if s.alive[*wi] && !self.killed_after_dispatch(*cid, *wi, s) {
-                    chan[*wi].push(cid + 1);
-                } else {
-                    dropped_queued.push(*cid);
-                }
+        for (cid, wi, gen) in s.dispatched.iter() {
+            if !called.contains(cid) && s.alive[*wi] && *gen == s.wgen[*wi] {
+                chan[*wi].push(cid + 1);
             }
         }
         // measured channel lengths must agree with the reconstruction; if not, report both
@@ -174,21 +169,28 @@ impl Run {
             "connected": s.connected,
             "dlog": self.dlog.iter().map(|d| json!([d.0, d.1, d.2])).collect::<Vec<_>>(),
             "faults": s.faults, "everFaulted": self.ever_faulted,
-            "cmdq": self.pending_faults,
+            "cmdq": pending_faults(s),
+            "skipped": s.skipped,
             "accepted": one_based(&s.accepted),
             "finished": one_based(&s.finished),
             "wstate": s.wstate, "now": s.now_ms,
             "stopReply": s.stop_reply, "stopReplyAt": s.stop_reply_at,
         })
     }
+}
 
-    /// a connection dispatched to generation g of worker wi is lost if that generation died before it
-    /// was called; since a replacement gets a fresh queue, "alive" alone is not enough
-    fn killed_after_dispatch(&self, _cid: usize, wi: usize, s: &Snap) -> bool {
-        // dispatch index of the connection vs. kills is tracked through `killed` (set at Kill, cleared
-        // when the replacement's handle has been consumed); conservative: a killed worker's queue is gone
-        self.killed[wi] && !s.alive[wi]
+/// faults reported by the accept thread and not yet answered by a replacement
+fn pending_faults(s: &Snap) -> Vec<usize> {
+    let mut rep = s.replaced.clone();
+    let mut out = vec![];
+    for f in s.faults.iter() {
+        if let Some(p) = rep.iter().position(|r| r == f) {
+            rep.remove(p);
+        } else {
+            out.push(*f);
+        }
     }
+    out
 }
 
 fn run_schedule(run_id: usize, sch: &Value, dir: &str, trace: &mut Trace) -> Value {
@@ -349,7 +351,7 @@ fn absorb(run: &mut Run, s: &Snap) {
         .dispatched
         .iter()
         .zip(s.dclean.iter())
-        .map(|((cid, wi), clean)| (cid + 1, *wi, *clean))
+        .map(|((cid, wi, _), clean)| (cid + 1, *wi, *clean))
         .collect();
     // injected errors consumed: an "accepted" point with code 2 (error) per consumption
     for (k, code) in s.points.iter() {
